@@ -7,6 +7,7 @@ terms, filtered gate constraints, α-reduction), the quotient identity, the FRI 
 import P2.Model.Fri
 import P2.Model.Challenger
 import P2.Model.Gates
+import P2.Model.PlonkAlg
 namespace P2.Plonk
 open P2 P2.Fri P2.Merkle P2.Gates
 
@@ -182,13 +183,9 @@ def validateShape (c : CommonData) (pp : ProofWithPis) : Verdict := firstBad (sh
 
 /-! ### vanishing polynomial -/
 
-def UNUSED_SELECTOR : Nat := 4294967295
-
-/-- `compute_filter(row, group_range, s, many_selector)` -/
+/-- `compute_filter` at `K = GL2` (generic definition in `P2.PlonkAlg`) -/
 def computeFilter (row : Nat) (group : Nat × Nat) (s : GL2) (manySelectors : Bool) : GL2 :=
-  let idxs := ((List.range (group.2 - group.1)).map (· + group.1)).filter (· ≠ row) ++
-    (if manySelectors then [UNUSED_SELECTOR] else [])
-  idxs.foldl (fun acc i => acc * (FOps.ofNat i - s)) FOps.one
+  PlonkAlg.computeFilter row group s manySelectors
 
 /-- `evaluate_gate_constraints`: filtered constraints of every gate type summed per index -/
 def evaluateGateConstraints (c : CommonData) (constants wires : List GL2) (pih : Digest) : List GL2 :=
@@ -203,24 +200,14 @@ def evaluateGateConstraints (c : CommonData) (constants wires : List GL2) (pih :
     (cs.zipIdx).foldl (fun a (cv, j) => if j < a.size then a.set! j (a[j]! + filter * cv) else a) acc) init
   acc.toList
 
-/-- `eval_l_0(n, x)` -/
-def evalL0 (n : Nat) (x : GL2) : GL2 :=
-  if x == FOps.one then FOps.one else
-  (FOps.pow x n - FOps.one) * FOps.inv (FOps.ofNat n * (x - FOps.one))
+/-- `eval_l_0(n, x)` at `K = GL2` -/
+def evalL0 (n : Nat) (x : GL2) : GL2 := PlonkAlg.evalL0 n x
 
-def chunksOf {α} (n : Nat) (xs : List α) : List (List α) :=
-  if n = 0 then [] else
-  (List.range ((xs.length + n - 1) / n)).map fun i => (xs.drop (i * n)).take n
+def chunksOf {α} (n : Nat) (xs : List α) : List (List α) := PlonkAlg.chunksOf n xs
 
-/-- `check_partial_products` -/
+/-- `check_partial_products` at `K = GL2` -/
 def checkPartialProducts (nums dens partials : List GL2) (zx zgx : GL2) (maxDegree : Nat) : List GL2 :=
-  let accs := [zx] ++ partials ++ [zgx]
-  let nc := chunksOf maxDegree nums
-  let dc := chunksOf maxDegree dens
-  (List.range nc.length).map fun i =>
-    let prev := accs.getD i FOps.zero
-    let next := accs.getD (i + 1) FOps.zero
-    prev * FOps.prod (nc.getD i []) - next * FOps.prod (dc.getD i [])
+  PlonkAlg.checkPartialProducts nums dens partials zx zgx maxDegree
 
 /-- `get_lut_poly(...).eval(delta)` for table `lut` -/
 def lutPolyEval (lut : List (Nat × Nat)) (nbSlots degree : Nat) (b delta : GL) : GL :=
